@@ -718,8 +718,9 @@ class Runner:
         exc = kinds[via.get("exc", "Exception")]
 
         def proj(_):
-            answers.append(project_tuple(self.qv[r]))
+            # (the accessor first: under a low limit it is the engine's own dereferencing that runs out of stack)
             gv = [engine.get_value(v) for v in self.qv[r]]
+            answers.append(project_tuple(self.qv[r]))
             gvs.append(project_raw_tuple(gv))
             row = []
             for v in self.qv[r]:
